@@ -9,6 +9,7 @@ from __future__ import annotations
 
 import re
 from collections import Counter
+from fractions import Fraction
 
 from harness.gen_pcode import gen_edit_script, gen_program, gen_schedule, gen_snippet
 from harness.interp_corr import m3_stream
@@ -16,23 +17,42 @@ from harness.interp_run import apply_edit_script
 from vp.core import Check, Failure
 
 META = dict(
-    level_text="Lean 4 theorems over the as-is merge model: a rejected edit changes nothing; an edit that changes a "
-               "started/executed line is rejected while the method manager still sees the running program; the full "
-               "statement (completed work survives an accepted edit) is refuted by a kernel-evaluated witness "
-               "(C01_counterexample: 'Mark: a / Wait: 1s / Mark: b', append 'Mark: c' at tick 5 ⇒ marks 'a; a'), and "
-               "the as-is behaviour is characterised exactly (merge_discards_progress, merge_detaches_manager_view). "
-               "Model tied to MethodManager.merge_method/set_method + PInterpreter by differential execution with "
-               "edit scripts (append / change / insert / delete) at random ticks; the witness is replayed on the real "
-               "engine on every run.",
-    level_note="Known finding: the code does not satisfy C01 (every accepted live edit restarts the method; reported "
-               "method state is empty after an edit; a second edit is not validated). Proved clauses are the "
-               "_partial ones. Trusted: Lean kernel, harness, line identity by id.",
-    technique="Lean 4 proof (as-is model: partial theorems + decided counterexample) + differential correspondence + engine oracle",
+    level_text="Lean 4 theorems over the as-is merge model, for every state and every history of ticks, requests, "
+               "injections and edits (OPM.Lemmas.MergeHist): a rejected edit changes nothing and every continuation of "
+               "the run is the continuation without it; an edit that changes a started/executed line is rejected while "
+               "the method manager still sees the running program. The full statement is refuted by kernel-evaluated "
+               "witnesses (C01_counterexample: completed work is discarded; C01_delete_counterexample: removing a "
+               "started line is accepted) and the as-is behaviour is characterised exactly: every accepted edit, after "
+               "any history, installs an interpreter with no progress at all whose main generator stands in front of "
+               "the program node (every_accepted_edit_restarts, accepted_edit_restarts_after_any_history); with nothing "
+               "registered the merged state IS a new interpreter over the new method (merge_is_a_fresh_start); after "
+               "one merged edit the next edit is never validated (second_edit_not_validated, burst_of_edits_all_set); "
+               "no generator of the old interpreter, injected code included, survives (accepted_edit_keeps_no_generator, "
+               "set_edit_forgets_interrupts). Decided witnesses (second edit rewrites a completed line, edit while "
+               "injected code runs, nested Watch stall, deleted line) are replayed on the real engine on every run. "
+               "Model tied to MethodManager.merge_method/set_method + PInterpreter by differential execution with 1-3 "
+               "edit scripts per case (append / change / insert / delete, also inside bodies) and injected snippets.",
+    level_note="Known findings: the code does not satisfy C01 (every accepted live edit restarts the method; reported "
+               "method state and run log are emptied; a second edit is not validated; removing a started line is "
+               "accepted). The 55 known-finding keys carry kind of line (Mark / UOD command), first vs later edit and "
+               "what was active at the edit; a re-execution more than once per edit, a partial loss of method state or "
+               "run log, a lost line outside the two recorded stall situations, any effect of a rejected edit and the "
+               "acceptance of a changed started line on a first edit are NOT known and alarm. Proved clauses of the "
+               "property itself are only the _partial ones; the run log and the engine-level clauses (error state, "
+               "System State) are oracle-only. Trusted: Lean kernel, harness, line identity by id.",
+    technique="Lean 4 proof (as-is model: partial theorems, all-state/all-history characterisation, decided counterexamples) "
+              "+ differential correspondence + engine oracle",
 )
 MODULE = "OPM.Properties.C01"
 REQUIRED = ["OPM.C01.C01_partial_rejected_edit_changes_nothing", "OPM.C01.C01_partial_started_line_edit_rejected",
-            "OPM.C01.C01_counterexample", "OPM.C01.merge_discards_progress", "OPM.C01.C01_witness",
-            "OPM.C01.C01_witness_nested_interrupt"]
+            "OPM.C01.C01_partial_rejected_edit_future_unchanged",
+            "OPM.C01.C01_counterexample", "OPM.C01.C01_delete_counterexample", "OPM.C01.merge_discards_progress",
+            "OPM.C01.every_accepted_edit_restarts", "OPM.C01.accepted_edit_restarts_after_any_history",
+            "OPM.C01.merge_is_a_fresh_start", "OPM.C01.second_edit_not_validated", "OPM.C01.burst_of_edits_all_set",
+            "OPM.C01.set_edit_forgets_interrupts", "OPM.C01.accepted_edit_keeps_no_generator",
+            "OPM.C01.edit_keeping_no_started_line_accepted",
+            "OPM.C01.C01_witness", "OPM.C01.C01_witness_nested_interrupt", "OPM.C01.C01_witness_second_edit",
+            "OPM.C01.C01_witness_injected", "OPM.C01.C01_witness_deleted_line"]
 
 
 def marks_of(snap) -> list[str]:
@@ -282,7 +302,9 @@ def oracle(case) -> list[Failure]:  # noqa: C901
                 less = {m: (got[m], want[m]) for m in sorted(names) if got[m] < want[m]}
                 if more:
                     # the restart re-runs a completed line once per accepted edit at most
-                    often = any(g - w > len(accepted) for g, w in more.values())
+                    # (not judged while a nested Watch/Alarm was registered: there the restarted enclosing handler
+                    #  and the re-registered nested one both run the nested body -- part of that recorded finding)
+                    often = act != "nested-interrupt" and any(g - w > len(accepted) for g, w in more.values())
                     fails.append(Failure(f"edit-reexecutes-started-line:{kind}:{nth}:{act}" +
                                          (":more-than-once-per-edit" if often else ""), case,
                                          f"{kind}s that took effect more often than in a run of the final method from "
@@ -325,6 +347,10 @@ def template_cases() -> list[dict]:
                 if at == 12:
                     out.append({"pcode": sh, "edits": [[at, [["delete", (k + 0.5) / n]]]], "total": 60})
             out.append({"pcode": sh, "edits": [[at, [["append", "Mark: appended"]]]], "total": 60})
+        # a change of nothing but the white space of a line (deeper indentation, trailing blank) is a change
+        for k, ln in enumerate(sh.splitlines()):
+            for text in ("    " + ln.strip(), ln.strip() + " "):
+                out.append({"pcode": sh, "edits": [[12, [["change", (k + 0.5) / n, text]]]], "total": 60})
         # a second edit (append / change of every line) after an accepted or a rejected first one
         for first in ([["append", "Mark: one"]], [["change", 0.01, "Mark: nope"]]):
             out.append({"pcode": sh, "edits": [[10, first], [24, [["append", "Mark: two"]]]], "total": 60})
@@ -361,39 +387,69 @@ def gen_oracle_cases(ctx: Check, n: int) -> list[dict]:
     return out
 
 
+def macro_stream_cases() -> list[dict]:
+    """Directed cases for the macro half of `_validate_liveedit_method`: a macro that has been called (once / twice /
+    is being executed) and an edit that touches its body without touching a started line (a line inserted into or
+    appended to the body, a not yet started body line changed or deleted), and the same edits before the first call."""
+    out = []
+    pcode = "Macro: M1\n    Mark: a\n    Wait: 0.5s\n    Mark: b\nMark: c\nCall macro: M1\nMark: d\nCall macro: M1\nMark: e"
+    tick = lambda i: ["tick", 1, str(Fraction(i + 1, 8)), str(Fraction(i + 1, 8)), [0, 0, 0]]   # noqa: E731
+    scripts = [[["insert", 0.2, "Mark: x"]], [["insert", 0.35, "Mark: x"]], [["insert", 0.45, "CmdA"]],
+               [["change", 0.35, "Mark: y"]], [["delete", 0.35]], [["append", "Mark: z"]], [["change", 0.05, "Macro: M2"]]]
+    for at in (2, 6, 9, 12, 16, 22, 30):
+        for sc in scripts:
+            ops = [tick(i) for i in range(at)] + [["edit", sc]] + [tick(at + i) for i in range(12)]
+            out.append({"pcode": pcode, "ops": ops, "keep_indent": True})
+    return out
+
+
 def run(ctx: Check) -> int:
     ctx.prove(MODULE, REQUIRED)
-    ctx.rule = ("Edit stream: generated methods x schedules x 1-2 edit scripts (append/change/insert/delete lines, at "
-                "random ticks, incl. edits of started lines) x optional injected snippet, real MethodManager vs "
-                "OPM.Model.Merge; non-trivial = an interrupt or block was active. Oracle: the edited run on the real "
-                "engine vs a run of the final method from the start (mark counts, command init counts), method state "
-                "before/after, rejection of edits that touch started lines.")
+    ctx.rule = ("Edit stream: generated methods x schedules x 1-3 edit scripts (append/change/insert/delete lines, half of "
+                "them keeping the indentation of the place they touch so that bodies of Block/Watch/Alarm/Macro are "
+                "edited too, at random ticks, incl. edits of started lines) x optional injected snippet, real "
+                "MethodManager vs OPM.Model.Merge; non-trivial = an interrupt or block was active. Oracle on the real "
+                "engine (templates: every line changed / re-indented / deleted at three ticks, second edits, edits while "
+                "injected code runs; generated: 1-3 edits, 25% with an injected snippet): accept/reject rule incl. "
+                "deleted lines, reported method state and run log before/after every edit, a rejected edit leaves "
+                "engine state, method state, method text, run log and interpreter alone and the run equals the run "
+                "without it tick for tick; an accepted run vs a run of the final method from the start (per-line Mark "
+                "counts and UOD command init counts of lines outside Alarm/Macro bodies).")
     rng = ctx.rng
     extra = []
     for _ in range(ctx.n(120, 2500)):
         pcode, stats = gen_program(rng, max_lines=10)
         ops = gen_schedule(rng, rng.randrange(10, 40))
-        for _ in range(rng.choice([1, 1, 2])):
+        for _ in range(rng.choice([1, 1, 2, 3])):
             ops.insert(rng.randrange(1, len(ops)), ["edit", gen_edit_script(rng)])
         if rng.random() < 0.4:
             ops.insert(rng.randrange(1, len(ops)), ["inject", gen_snippet(rng)])
-        extra.append({"pcode": pcode, "ops": ops})
-    _, impl_out, _ = m3_stream(ctx, "merge-m4", 0, extra_cases=extra)
-    for o in impl_out:
-        for x in o:
-            if x in ("merged", "set", "rejected"):
+        extra.append({"pcode": pcode, "ops": ops, "keep_indent": rng.random() < 0.5})
+    extra += macro_stream_cases()
+    _, impl_out, _, op_lines = m3_stream(ctx, "merge-m4", 0, extra_cases=extra, with_lines=True)
+    for o, ls in zip(impl_out, op_lines):
+        for x, ln in zip(o, ls):
+            if ln == "edit":
                 ctx.count("edit:" + x)
-    ctx.monitor(gen_oracle_cases(ctx, ctx.n(40, 600)), oracle, impl_timeout=120)
+    cases = gen_oracle_cases(ctx, ctx.n(100, 600))
+    for c in cases:
+        ctx.count("oracle:edits=%d" % len(c["edits"]))
+        if c.get("injects"):
+            ctx.count("oracle:with-injected-code")
+    ctx.monitor(cases, oracle, impl_timeout=120)
     return ctx.finish(search=lambda c: c.monitor(gen_oracle_cases(c, c.n(100, 600)), oracle, impl_timeout=120))
 
 
 def replay(obj) -> int:
+    """Re-runs the oracle on the case of a replay file; exit 1 iff a failure that is not a recorded finding shows."""
+    from vp.core import load_known
     c = obj.get("case", {})
     if "edits" in c:
+        known = {k["key"] for k in load_known("C01")}
         fs = oracle(c)
-        print(c["pcode"], c["edits"])
+        print(c)
         for f in fs:
-            print("oracle:", f.key, f.detail)
-        return 1 if fs else 0
+            print("oracle:" if f.key not in known else "oracle (recorded finding):", f.key, f.detail)
+        return 1 if any(f.key not in known for f in fs) else 0
     print(obj)
     return 0
